@@ -78,6 +78,14 @@ func (a *connPool) monitoredDial(ctx context.Context, connName, target string, o
 	conn = &monitoredConn{
 		Name: connName,
 	}
+	if dial := verifDialHook(); dial != nil {
+		conn.ClientConn, err = dial(target, opts...)
+		if err != nil {
+			return nil, err
+		}
+		a.monitor.AddConn(conn)
+		return conn, nil
+	}
 	//nolint:staticcheck // SA1019: ignore deprecation warning
 	conn.ClientConn, err = grpc.DialContext(ctx, target, opts...)
 	if err != nil {
